@@ -3,6 +3,7 @@ package main
 import (
 	"fmt"
 	"reflect"
+	"sync"
 
 	"github.com/jub0bs/cors"
 	"github.com/jub0bs/cors/internal/zzverif/vlib"
@@ -37,6 +38,23 @@ func cfgEqual(a, b *cors.Config) bool {
 		a.DangerouslyTolerateSubdomainsOfPublicSuffixes == b.DangerouslyTolerateSubdomainsOfPublicSuffixes
 }
 
+// c06Bystander is an unrelated middleware of the same process. Its Config() is called right after every Config()
+// call whose result c06Judge keeps: a result is the caller's own value and does not change when somebody else asks.
+var c06Bystander = sync.OnceValue(func() *cors.Middleware {
+	m, err := cors.NewMiddleware(cors.Config{Origins: []string{"https://bystander-1.example", "http://bystander-2.example:8080", "https://*.bystander-3.example"},
+		Methods: []string{"BYSTAND"}, RequestHeaders: []string{"X-Bystander"}, ResponseHeaders: []string{"X-Bystander-R"}, ExtraConfig: cors.ExtraConfig{DangerouslyTolerateInsecureOrigins: true}})
+	if err != nil {
+		panic(err)
+	}
+	return m
+})
+
+func c06Keep(m *cors.Middleware) *cors.Config {
+	c := m.Config()
+	c06Bystander().Config()
+	return c
+}
+
 func c06Judge(k c06Case) *vlib.Failure {
 	cfg := k.Cfg.Config()
 	if k.Shape == 1 {
@@ -57,7 +75,7 @@ func c06Judge(k c06Case) *vlib.Failure {
 	if i := firstDiff(want, observeOnOff(m1, suite)); i >= 0 {
 		return vlib.Failf("after the suite was served once with a handler that overwrites in place the header slices it can reach, request #%d (%s, debug=%t) is answered differently", i%len(suite), suite[i%len(suite)], i >= len(suite))
 	}
-	c1 := m1.Config()
+	c1 := c06Keep(m1)
 	if c1 == nil {
 		return vlib.Failf("Config() of a configured middleware is nil")
 	}
@@ -90,7 +108,7 @@ func c06Judge(k c06Case) *vlib.Failure {
 		if i := firstDiff(want, observeOnOff(m1, suite)); i >= 0 {
 			return vlib.Failf("round trip %d changed the answer to request #%d (%s, debug=%t)", step, i%len(suite), suite[i%len(suite)], i >= len(suite))
 		}
-		chain = append(chain, m1.Config())
+		chain = append(chain, c06Keep(m1))
 	}
 	for i := 2; i < len(chain); i++ {
 		if !cfgEqual(chain[1], chain[i]) {
